@@ -4,7 +4,7 @@
 set -u
 WT=$(mktemp -d /tmp/revfix.XXXXXX)
 git -C /repo worktree add -q --detach "$WT" HEAD || exit 1
-rm -f /verif/revfix/*.diff
+rm -f /verif/revfix/*.diff   # revfix/manual/ holds hand-resolved reverts for fixes whose revert conflicts with later fixes
 i=0
 for h in $(git -C /repo log --reverse --format=%h --grep='^fix:'); do
   i=$((i+1))
@@ -12,6 +12,9 @@ for h in $(git -C /repo log --reverse --format=%h --grep='^fix:'); do
   if git -C "$WT" revert -n "$h" >/dev/null 2>&1; then
     git -C "$WT" diff HEAD > "$f"
     echo "$f ok"
+  elif [ -f /verif/revfix/manual/$(basename $f) ] && git -C "$WT" reset -q --hard HEAD && git -C "$WT" apply --check /verif/revfix/manual/$(basename $f) 2>/dev/null; then
+    cp /verif/revfix/manual/$(basename $f) "$f"
+    echo "$f ok (manually resolved revert)"
   else
     echo "$f CONFLICT (skipped)"
   fi
